@@ -9,6 +9,7 @@ CONSTANTS
   MaxBuilds = 4
   Variant = "chained"
   Fuel = 50
+  Styles <- QuotedOnly
   MaxHist = 0
 VIEW View
 INVARIANTS TypeOK NoStaleRun ResolveTerminates
